@@ -6,5 +6,6 @@ def check(ctx, rep):
     treer.tree_1(ctx, rep)
     treer.tree_2(ctx, rep)
     treer.tree_10(ctx, rep)
+    treer.tree_11(ctx, rep)
     rep.note('Not decided: that the binary search of the position lookup selects the right child (comparisons over positions); '
              'decided only: it returns what it located.')
